@@ -246,21 +246,27 @@ def nparams(rt):
     return sum(1 for e in rt if e[0] == 'P')
 
 
+def gen_atom(rng):
+    if rng.random() < 0.5:
+        return lit(rng.choice(WORDS + [b'/', b'/a', b'/ab']))
+    return ('s', rng.choice(CLASSES))
+
+
 def gen_re(rng, depth=2):
-    """general regex of the family without capture groups"""
+    """general regex of the family without capture groups.  Bodies of * and + are single atoms (a literal or a class),
+    so that no pattern is exponentially ambiguous for a back-tracking engine (PCRE has a step limit, the reference
+    engine of the oracle has none)."""
     k = rng.randrange(10)
     if depth <= 0 or k < 3:
-        if rng.random() < 0.5:
-            return lit(rng.choice(WORDS + [b'/', b'/a', b'/ab']))
-        return ('s', rng.choice(CLASSES))
+        return gen_atom(rng)
     if k < 5:
         return ('&', gen_re(rng, depth - 1), gen_re(rng, depth - 1))
     if k < 7:
         return ('|', gen_re(rng, depth - 1), gen_re(rng, depth - 1))
     if k == 7:
-        return ('*', gen_re(rng, depth - 1))
+        return ('*', gen_atom(rng))
     if k == 8:
-        return ('+', gen_re(rng, depth - 1))
+        return ('+', gen_atom(rng))
     return ('?', gen_re(rng, depth - 1))
 
 
@@ -269,7 +275,7 @@ def gen_pattern(rng):
         return ('R', gen_route(rng))
     r = ('&', lit(b'/'), gen_re(rng, 3))
     if rng.random() < 0.1:
-        r = rng.choice([('z',), ('e',), ('g', r), ('|', r, ('z',)), ('*', ('?', lit(b'/a')))])
+        r = rng.choice([('z',), ('e',), ('g', r), ('|', r, ('z',)), ('*', ('?', lit(b'/a'))), ('+', ('*', ('c', 97)))])
     return ('E', r)
 
 
@@ -354,17 +360,17 @@ def gen_ments(rng, nk, kidnames):
     ms = []
     for _ in range(rng.randrange(0, 6)):
         key = rng.choice(KEYS)
-        if rng.random() < 0.04:
+        if rng.random() < 0.01:
             key = rng.choice(BADKEYS)
         t = rng.choice(TMPLS)
-        if rng.random() < 0.04:
+        if rng.random() < 0.01:
             t = rng.choice(BADTMPLS)
         ms.append(('U', key, t))
     for k in range(nk):
         if rng.random() < 0.85:
             name = kidnames[k]
             t = rng.choice([b'/' + name + b'{1}', b'/' + name + b'{1}', b'{1}', b'/m{1}/z'])
-            if rng.random() < 0.05:
+            if rng.random() < 0.015:
                 t = rng.choice([b'/m', b'/{1}{2}', b'/{2}'])
             ms.insert(rng.randrange(len(ms) + 1), ('C', name, t, k))
     return ms
@@ -377,7 +383,7 @@ def gen_app(rng, depth, hc):
     for k in range(nk):
         for _ in range(rng.choice([1, 1, 1, 2, 0]) if depth < 4 else 1):
             opts.insert(rng.randrange(len(opts) + 1), gen_mount_opt(rng, k))
-    names = rng.sample([b'c', b'd', b'sub', b'k1', b'a'], nk)
+    names = rng.sample([b'c', b'd', b'sub', b'e', b'c', b'k1'], nk)
     ments = gen_ments(rng, nk, names)
     root = rng.choice([b'', b'', b'', b'/r', b'http://h/s'])
     return dict(root=root, opts=opts, ments=ments, kids=kids)
@@ -575,7 +581,7 @@ def site_case(rng, depth):
             i = rng.randrange(len(ps))
             ps = ps[:i] + [rng.choice(PARAMS)] + ps[i + 1:]
         elif r < 0.2:
-            ps = ps + [b'1'] if rng.random() < 0.5 else ps[:-1]
+            ps = (ps + [b'1'])[:6] if rng.random() < 0.5 else ps[:-1]
         eurl = prefix
         k = 0
         for e in rt:
@@ -606,7 +612,7 @@ def gen_mp(rng):
             return ('E', lit(rng.choice(HOSTS)))
         if k == 2:
             return ('E', ('&', ('?', lit(b'www.')), lit(b'example.com')))
-        return ('R', [('P', NOSL, False), ('L', b'.'), ('P', LOW, True)])
+        return ('R', [('P', WORD, False), ('L', b'.'), ('P', LOW, True)])
     def scriptp(grouped):
         k = rng.randrange(4)
         if k == 0:
@@ -646,22 +652,24 @@ def pool_case(rng, nul_in_k=False):
     hc = HidCounter()
     n = rng.choice([1, 2, 3, 4])
     pools = [(gen_mp(rng), gen_app(rng, rng.choice([1, 1, 2]), hc)) for _ in range(n)]
-    for _, a in pools:
+    def strip(a):
         a['ments'] = []
+        for k in a['kids']:
+            strip(k)
+    for _, a in pools:
+        strip(a)
     q = []
-    def field(pat, base):
-        r = rng.random()
+    def field(pat, base, hit):
         s = None
-        if pat is not None and r < 0.7:
+        if pat is not None and (hit or rng.random() < 0.5):
             s = sample_pat(rng, pat)
         if s is None:
             s = rng.choice(base)
-        if rng.random() < 0.3:
-            s = edit(rng, s)
         return s
     for _ in range(rng.choice([6, 10])):
         mp, a = rng.choice(pools)
-        h, s, p = field(mp['h'], HOSTS), field(mp['s'], SCRIPTS), field(mp['p'], [b'/', b'/a', b'/ab/c'])
+        hit = rng.random() < 0.8
+        h, s, p = field(mp['h'], HOSTS, hit), field(mp['s'], SCRIPTS, hit), field(mp['p'], [b'/', b'/a', b'/ab/c'], hit)
         if rng.random() < 0.5:
             sub = sample_url(rng, a)
             selpat = mp['p'] if mp['sel'] == 'p' else mp['s']
@@ -677,12 +685,20 @@ def pool_case(rng, nul_in_k=False):
                     p = url
                 else:
                     s = url
+        if rng.random() < 0.4:
+            w = rng.randrange(3)
+            if w == 0:
+                h = edit(rng, h)
+            elif w == 1:
+                s = edit(rng, s)
+            else:
+                p = edit(rng, p)
         if rng.random() < 0.6:
             q += ['q', hexs(h), hexs(s), hexs(p), hexs(rng.choice(METHODS[:3]))]
         else:
             if not nul_in_k:
                 h, s, p = [x.replace(b'\x00', b'0') for x in (h, s, p)]
-            q += ['k', str(rng.randrange(n)), hexs(h), hexs(s), hexs(p)]
+            q += ['k', str(rng.randrange(n)) if rng.random() < 0.3 else str(pools.index((mp, a))), hexs(h), hexs(s), hexs(p)]
     return 'G N%d %s Q %s' % (n, ' '.join(wr_mp(mp) + ' ' + wr_app(a) for mp, a in pools), ' '.join(q))
 
 
@@ -713,12 +729,12 @@ def exhaustive_cases():
 def gen_abstract(ctx):
     rng = ctx.rng
     cases = exhaustive_cases()
-    nt = ctx.scale(1100, 14000)
+    nt = ctx.scale(3000, 30000)
     for i in range(nt):
         cases.append(tree_case(rng, rng.choice([1, 1, 2, 2, 3, 4])))
-    for i in range(ctx.scale(700, 9000)):
+    for i in range(ctx.scale(2000, 20000)):
         cases.append(site_case(rng, rng.choice([1, 2, 2, 3, 3, 4])))
-    for i in range(ctx.scale(500, 6000)):
+    for i in range(ctx.scale(1500, 15000)):
         cases.append(pool_case(rng))
     return cases
 
@@ -970,6 +986,10 @@ def oracle(case, out):
                         hid, eurl = exp.split(':')
                         target = 'F %s %d%s' % (hid, len(ps), ''.join(' ' + hexs(x) for x in ps))
                         if py_main(root, unhex(eurl), b'GET') == target and got != target:
+                            if not throws and any(b'\x00' in x for x in ps) and b'\x00' not in url:
+                                return ('mapper-nothrow-truncates-url-at-nul',
+                                        'query %d: invalid_url_throws=false and a parameter contains a NUL byte: the generated url %r '
+                                        'stops at the NUL and routes to "%s" instead of "%s"' % (qi, url, got, target))
                             return ('map-dispatch-disagree',
                                     'query %d: key %r with %d parameters names handler %s and its url is unambiguous, but the mapper '
                                     'produced %r which routes to "%s"' % (qi, key, len(ps), hid, url, got))
